@@ -45,6 +45,11 @@ def childHalo (m : Mesh) (p : Parti) (childOf : List Nat) (a ch b dh d : Nat) : 
   isectMerge (splitHalo (childTarget m (p.row a) childOf ch d) (halo m p a b d))
     ((splitHalo (childTarget m (p.row b) childOf dh d) (halo m p b a d)).map (·.1))
 
+/-- the same computation with the four lists it depends on as arguments (the driver computes every parent halo and
+every child target set once and reuses them; `childHalo_eq_from` in `Props/C12.lean` links the two) -/
+def childHaloFrom (ctA ctB Ha Hb : List Nat) : List Nat :=
+  isectMerge (splitHalo ctA Ha) ((splitHalo ctB Hb).map (·.1))
+
 /-- child-local index ↦ base-mesh index (through the child part and the parent patch part) -/
 def childToBase (m : Mesh) (p : Parti) (childOf : List Nat) (a ch d i : Nat) : Nat :=
   (m.target (p.row a) d).getD ((childTarget m (p.row a) childOf ch d).getD i 0) 0
